@@ -36,7 +36,9 @@ def check_series_has_expected_type(series: pd.Series, internal_type: np.dtype) -
     elif (internal_type == bool) & (is_bool_dtype(series)):
         out = True
     elif (internal_type == numpy.datetime64) & (is_datetime64_any_dtype(series)):
-        out = True
+        # Timestamps with nanosecond resolution (the pandas default) reach the
+        # vectorized functions as plain integers, which are then read as days.
+        out = series.dtype != numpy.dtype("datetime64[ns]")
     else:
         out = False
 
@@ -129,7 +131,9 @@ def convert_series_to_internal_type(
 
         # Conversion to DateTime
         elif internal_type == np.datetime64:
-            if not is_datetime64_any_dtype(out):
+            if is_datetime64_any_dtype(out):
+                out = out.astype("datetime64[s]")
+            else:
                 try:
                     out = out.astype(np.datetime64)
                 except ValueError as e:
